@@ -388,12 +388,59 @@ def _uses(*keys, **kw):
   return prog
 
 
+def _rejected_then(*keys):
+  """A singleton use that Gin rejects at validation (no constructor given, nothing cached), then ordinary uses
+  (round e seed C18-e: the rejection left the singleton lock held by that thread)."""
+  base = _uses(*keys)
+
+  def prog():
+    out = []
+    try:
+      gin.config.singleton_value('c18_nokey')
+      out.append(('c18_nokey', 'accepted'))
+    except ValueError:
+      pass
+    return out + base()
+  prog.label = 'rejected use, then uses %s' % (keys,)
+  return prog
+
+
+def _locks_left_held():
+  from gin import config as gc
+  """Names of gin's module-level locks that are still held although every thread of the run has finished (any
+  later use from another thread would hang).  Tested from a fresh thread; a lock found held is replaced by a new
+  one of the same type so that the next run of this process starts clean."""
+  import threading
+  held = []
+  for name in ('_SINGLETONS_LOCK', '_OPERATIVE_CONFIG_LOCK'):
+    lock = getattr(gc, name, None)
+    lock = getattr(lock, '_real', lock)
+    if lock is None:
+      continue
+    got = []
+
+    def probe(lock=lock, got=got):
+      if lock.acquire(blocking=False):
+        lock.release()
+        got.append(True)
+    t = threading.Thread(target=probe)
+    t.start()
+    t.join(5)
+    if not got:
+      held.append(name)
+      setattr(gc, name, type(lock)())
+  return held
+
+
 def _check_singleton2(results, final):
   for i, r in enumerate(results):
     if r is None:
       return 'thread %d did not finish' % i
     if r[0] == 'exc':
       return 'thread %d failed: %r' % (i, r[1])
+  held = _locks_left_held()
+  if held:
+    return 'every thread has finished but %s is still held: the next use from another thread hangs' % ', '.join(held)
   for tag in set(CONSTRUCTED):
     if CONSTRUCTED.count(tag) > 1:
       return 'singleton %r constructed %d times' % (tag, CONSTRUCTED.count(tag))
@@ -516,6 +563,8 @@ def scenarios(tier):
       ("singleton2: key shapes  a/b,b | b,a/b@outer", [_uses('a/b', 'b'), _uses('b', 'a/b@outer')],
        _setup_singleton2, _check_singleton2, 'singleton2'),
       ('singleton2: constructor uses a singleton  pair | j,pair', [_uses('pair'), _uses('j', 'pair')],
+       _setup_singleton2, _check_singleton2, 'singleton2'),
+      ('singleton2: a rejected use first  (rejected),j | j,n', [_rejected_then('j'), _uses('j', 'n')],
        _setup_singleton2, _check_singleton2, 'singleton2'),
   ]
   return out
